@@ -309,11 +309,11 @@ def device_kw(case):
     return {}
 
 
-def make_cfg(col, stub):
+def make_cfg(col, stub, wrapped=False):
     cls, name = {"text_embedded": (TextEmbedderConfig, "text_embedder"),
                  "image_embedded": (ImageEmbedderConfig, "image_embedder"),
                  "text_tokenized": (TextTokenizerConfig, "text_tokenizer")}[col["stype"]]
-    f = as_callable(col, stub)
+    f = stub if wrapped else as_callable(col, stub)
     form = col.get("cfg_form", "kw")
     if form == "pos":
         return cls(f, col["batch_size"])                       # Config(callable, batch_size)
@@ -349,7 +349,12 @@ def gen_col(rng, name, st, n, bs=None, variant=None, miss_p=None, dtype=None, na
     cells = [None if rng.chance(miss_p) else (rng.pick(pool) if pool else gen_string(rng)) for _ in range(n)]
     col = {"name": name, "stype": st, "dtype": dtype or rng.pick(["object", "str", "object", "str", "string", "category"]), "cells": cells,
            "nan_kind": nan_kind or rng.pick(["none", "nan", "pynan", "NA"]),
-           "batch_size": (None if rng.chance(0.25) else rng.randint(1, n + 1)) if bs is None else (bs or None)}
+           "batch_size": (None if rng.chance(0.25) else
+                          (rng.pick([1, max(1, n - 1), n, n + 1]) if rng.chance(0.5) else rng.randint(1, n + 1)))
+           if bs is None else (bs or None)}
+    if miss_p not in (0.0, 1.0) and rng.chance(0.3):
+        k_ = rng.randint(1, n)
+        col["cells"][n - k_:] = [None] * k_             # the LAST rows are missing
     col["cfg_form"] = rng.pick(["kw", "pos", "bs_omitted"])
     col["callable_form"] = rng.pick(CALLABLE_FORMS)
     if st == "text_tokenized":
@@ -389,13 +394,30 @@ def gen_case(rng):
                     for f in ("batch_size", "tok", "nkeys", "w"):
                         if f in same[0]:
                             c[f] = same[0][f]
+    # per-column configs that name ONE callable object but keep their own batch sizes
+    shared_callable = []
+    if via == "dataset":
+        for st in STYPES:
+            same = [c for c in cols if c["stype"] == st]
+            if len(same) >= 2 and st not in shared and rng.chance(0.5):
+                shared_callable.append(st)
+                for c in same[1:]:
+                    for f in ("tok", "nkeys", "w", "map_kind", "callable_form", "emb_dtype"):
+                        if f in same[0]:
+                            c[f] = same[0][f]
+                # different batch sizes on purpose: None vs k, k vs k'
+                opts = [None] + list(range(1, n + 2))
+                rng.shuffle(opts)
+                for c, b_ in zip(same, opts):
+                    c["batch_size"] = b_
     case = {"n": n, "index": rng.pick(["range", "range", "offset", "perm", "string", "dup"]), "cols": cols,
-            "via": via, "shared": shared, "extra_num": via == "dataset" and rng.chance(0.3),
+            "via": via, "shared": shared, "shared_callable": shared_callable, "extra_num": via == "dataset" and rng.chance(0.3),
             "device_form": rng.pick(DEVICE_FORMS), "device_positional": rng.chance(0.5)}
     # image columns holding paths of real files, served by a subclass that relies on the library's default retrieval
     # (repeated paths within a chunk are the point; a missing path cannot be opened, so no missing cells)
     for c in cols:
-        if HAVE_PIL and c["stype"] == "image_embedded" and "image_embedded" not in shared and rng.chance(0.45):
+        if HAVE_PIL and c["stype"] == "image_embedded" and "image_embedded" not in shared \
+                and "image_embedded" not in shared_callable and rng.chance(0.45):
             c["real_images"] = True
             c["callable_form"] = "object"       # must stay the ImageEmbedder subclass instance
             pool = rng.sample(range(N_IMAGES), rng.randint(1, 3))
@@ -527,9 +549,10 @@ def read_column(col, tfj):
 
 def run(case):
     stubs, shared_stub = {}, {}
+    one_obj = list(case["shared"]) + list(case.get("shared_callable", []))
     for col in case["cols"]:
         st = col["stype"]
-        if st in case["shared"]:
+        if st in one_obj:
             if st not in shared_stub:
                 shared_stub[st] = make_stub(col)
             stubs[col["name"]] = shared_stub[st]
@@ -573,6 +596,9 @@ def run(case):
                 continue
             if st in case["shared"]:
                 kw[FAMILY[st]] = make_cfg(same[0], shared_stub[st])
+            elif st in case.get("shared_callable", []):
+                fn = as_callable(same[0], shared_stub[st])       # ONE callable object, a config per column
+                kw[FAMILY[st]] = {c["name"]: make_cfg(c, fn, wrapped=True) for c in same}
             else:
                 kw[FAMILY[st]] = {c["name"]: make_cfg(c, stubs[c["name"]]) for c in same}
         col_to_stype = {name: getattr(torch_frame, next(c for c in case["cols"] if c["name"] == name)["stype"])
@@ -662,29 +688,38 @@ def row_vals(col, s):
 
 
 def split_shared(case, obs):
-    """For columns served by one shared callable: attribute its recorded calls to the columns
-    (the order in which columns are processed is not part of the property)."""
+    """For columns served by one callable object (one config for the stype, or per-column configs naming the same
+    callable): attribute the recorded calls to the columns BY CONTENT.  A column is converted completely before the
+    next one, so its calls are consecutive and cover its n rows; the order in which columns are processed is not part
+    of the property."""
     per_col = {}
-    for st in case["shared"]:
+    n = case["n"]
+    for st in list(case["shared"]) + list(case.get("shared_callable", [])):
         same = [c for c in case["cols"] if c["stype"] == st]
         calls = obs["cols"][same[0]["name"]]["calls"]
-        exp = {c["name"]: py_chunks(rendered(c), c["batch_size"]) for c in same}
-        m = len(next(iter(exp.values())))
-        groups = [calls[i:i + m] for i in range(0, len(calls), m)]
-        ok = len(calls) == m * len(same)
-        chosen = None
-        if ok:
-            for perm in itertools.permutations([c["name"] for c in same]):
-                if all([x["elems"] for x in g] == exp[name] for g, name in zip(groups, perm)):
-                    chosen = perm
-                    break
-            if chosen is None:
-                chosen = tuple(sorted(c["name"] for c in same))
-            for g, name in zip(groups, chosen):
-                per_col[name] = g
-        else:
+        groups, cur, cnt = [], [], 0
+        ok = True
+        for call in calls:
+            cur.append(call)
+            cnt += len(call["elems"])
+            if cnt == n:
+                groups.append(cur)
+                cur, cnt = [], 0
+            elif cnt > n:
+                ok = False
+                break
+        if cur or len(groups) != len(same):
+            ok = False
+        if not ok:
             for c in same:
                 per_col[c["name"]] = None
+            continue
+        left = list(same)
+        for g in groups:
+            flat = [e for call in g for e in call["elems"]]
+            hit = next((c for c in left if rendered(c) == flat), left[0])
+            left.remove(hit)
+            per_col[hit["name"]] = g
     return per_col
 
 
@@ -759,7 +794,8 @@ def oracle_frame(case, obs):
                             f"one image per row of each chunk, in row order (image ids by pixel content)",
                             expected=want_ids, observed=rec.get("embed_ids"))
         if st == "image_embedded" and rec.get("embed_sizes") is not None and col["name"] in obs["cols"] \
-                and st not in case["shared"] and rec["embed_sizes"] != [len(w) for w in want]:
+                and st not in case["shared"] and st not in case.get("shared_callable", []) \
+                and rec["embed_sizes"] != [len(w) for w in want]:
             return dict(key="image-embed-calls", what="forward_embed was not called once per retrieved batch",
                         expected=[len(w) for w in want], observed=rec["embed_sizes"])
         # 3. outputs assembled in row order
@@ -794,7 +830,9 @@ def shrink(case):
         for k in range(len(cols)):
             rest = cols[:k] + cols[k + 1:]
             sh = [s for s in case["shared"] if sum(c["stype"] == s for c in rest) >= 2]
-            yield dict(case, cols=rest, col_order=[x for x in case["col_order"] if x != cols[k]["name"]], shared=sh)
+            sc = [s for s in case.get("shared_callable", []) if sum(c["stype"] == s for c in rest) >= 2]
+            yield dict(case, cols=rest, col_order=[x for x in case["col_order"] if x != cols[k]["name"]], shared=sh,
+                       shared_callable=sc)
     if case.get("extra_num"):
         yield dict(case, extra_num=False)
     if case["index"] != "range":
@@ -819,7 +857,7 @@ def bs_rel(n, bs):
 
 
 def nontrivial_sig(case, obs):
-    sig = [case["via"], case["shared"], case["index"] == "dup", [m["n"] for m in case.get("more", [])]]
+    sig = [case["via"], case["shared"], case.get("shared_callable"), case["index"] == "dup", [m["n"] for m in case.get("more", [])]]
     for c in case["cols"]:
         miss = sorted({c["nan_kind"] for v in c["cells"] if v is None})
         sig.append([c["stype"], c["dtype"], miss, bs_rel(case["n"], c["batch_size"]), c.get("tok"), c.get("emb_dtype"),
@@ -848,6 +886,38 @@ def stats(cases, obss):
         for col in c["cols"]:
             bump(f"cfg:{c['via']}:{col.get('cfg_form', 'kw')}" + (":bs=None" if col["batch_size"] is None else ":bs=int"))
             bump(f"callable:{col['stype']}:{col.get('callable_form', 'object')}")
+        bd = d.setdefault("boundary", {})
+
+        def hit(k):
+            bd[k] = bd.get(k, 0) + 1
+        n_ = c["n"]
+        if n_ == 1:
+            hit("one_row")
+        for st in STYPES:
+            same = [x for x in c["cols"] if x["stype"] == st]
+            if len(same) >= 2:
+                bss = [x["batch_size"] for x in same]
+                mode = "one_config" if st in c["shared"] else "one_callable" if st in c.get("shared_callable", []) \
+                    else "distinct_callables"
+                diff = "equal_bs" if len(set(bss)) == 1 else \
+                    ("none_vs_k" if None in bss else "k_vs_k2")
+                hit(f"{mode}:{diff}")
+        for col in c["cols"]:
+            b_ = col["batch_size"]
+            for name, val in (("bs=1", 1), ("bs=n-1", n_ - 1), ("bs=n", n_), ("bs=n+1", n_ + 1)):
+                if b_ == val and val >= 1:
+                    hit(name)
+            if b_ is None:
+                hit("bs=None")
+            if b_ and n_ > b_ and n_ % b_ == 1:
+                hit("last_chunk_of_1")
+            cs = col["cells"]
+            if all(v is None for v in cs):
+                hit("all_missing")
+            elif cs[-1] is None:
+                hit("trailing_missing")
+            if cs[0] is None:
+                hit("leading_missing")
         h = f"{c['via']}:{len(c.get('more', []))}"
         d.setdefault("history", {})[h] = d.setdefault("history", {}).get(h, 0) + 1
         if o and ("exc" in o or any("exc" in r for r in o.get("cols", {}).values())):
@@ -922,6 +992,12 @@ def sanity(cases, obss):
     for k in need:
         if not d.get("forms", {}).get(k):
             probs.append(f"argument form {k} never drawn")
+    for k in ("one_row", "bs=1", "bs=n-1", "bs=n", "bs=n+1", "bs=None", "last_chunk_of_1", "all_missing",
+              "trailing_missing", "leading_missing", "one_config:equal_bs", "one_callable:none_vs_k",
+              "one_callable:k_vs_k2", "distinct_callables:equal_bs", "distinct_callables:none_vs_k",
+              "distinct_callables:k_vs_k2"):
+        if not d.get("boundary", {}).get(k):
+            probs.append(f"boundary {k} never drawn")
     if not d["dtype"].get("category"):
         probs.append("dtype category never drawn")
     import inspect
@@ -1041,6 +1117,14 @@ def coq_term_frame(case, obs):
                         allch.append(ch)
             names = sorted(c["name"] for c in same)
             cfgs = f"(cfg_broadcast {cstrs(names)} ({table_literal(same[0], allch)}, {bsl(same[0])}))"
+        elif st in case.get("shared_callable", []):
+            allch = []
+            for c in same:
+                for ch in tabs[c["name"]]:
+                    if ch not in allch:
+                        allch.append(ch)
+            tab = table_literal(same[0], allch)            # one callable: one table; every column keeps ITS batch size
+            cfgs = C.clist(same, lambda c: f"({cstr(c['name'])}, ({tab}, {bsl(c)}))")
         else:
             cfgs = C.clist(same, lambda c: f"({cstr(c['name'])}, ({table_literal(c, tabs[c['name']])}, {bsl(c)}))")
         for c in same:
